@@ -21,12 +21,29 @@ func zzSameBlock(a, b *Block, na, nb int, ea, eb error, tag string) bool {
 }
 
 // zzLockstep parses both parsers until the buffer is empty and compares every result.
+// With job parameter withNil=1 the first call of every drain is Parse(nil, 0).
 func zzLockstep(p, q Parser, limit int, tag string) {
+	withNil := verifParamOr("withNil", 0)
+	if tag != "Reset" {
+		withNil = 0 // only the first drain after the Reset starts with Parse(nil)
+	}
 	for step := 0; step <= limit; step++ {
-		flags := verifChoose(verifName("flags", step), 2)
+		op := 2
+		if withNil == 0 || step > 0 {
+			op = verifChoose(verifName(tag+" flags", step), 2)
+		}
+		if op == 2 { // scripted: the first call of the drain skips a block
+			na, ea := p.Parse(nil, 0)
+			nb, eb := q.Parse(nil, 0)
+			verifAssert(na == nb && ea == eb, tag+": Parse(nil) of the reset parser differs from that of a new parser [C13]")
+			if ea != nil || eb != nil || na != nb {
+				return
+			}
+			continue
+		}
 		var ba, bb Block
-		na, ea := p.Parse(&ba, flags)
-		nb, eb := q.Parse(&bb, flags)
+		na, ea := p.Parse(&ba, op)
+		nb, eb := q.Parse(&bb, op)
 		if !zzSameBlock(&ba, &bb, na, nb, ea, eb, tag) {
 			return
 		}
@@ -107,6 +124,9 @@ func zzResetIS(kind int) {
 	bs := 1 + verifChoose("bs", N+1)
 	used, upb, _ := zzMakeParser(kind, ld, w, bs)
 	verifAssume(upb.BufferSize == verifParam("PB")) // one buffer size per job: grow() allocations stay concrete
+	if wn := verifParamOr("Wn", 0); wn > 0 {
+		verifAssume(upb.WindowSize == wn) // the window is not the subject here; a concrete size keeps the offset checks cheap
+	}
 	verifAssume(upb.ShrinkSize < upb.BufferSize)
 	fresh, _ := zzFreshLike(kind, upb)
 	nn := verifChoose("nn", N+1)
@@ -135,6 +155,16 @@ func zzResetIS(kind int) {
 		return
 	}
 	zzLockstep(used, fresh, nn+1, "Reset")
+	// more data after the first drain: entries made for the end of the first fill meet the new bytes
+	if n2 := verifParamOr("N2", 0); n2 > 0 {
+		d2 := verifBytes("Y", n2)
+		n1, w1 := used.Write(d2)
+		m1, v1 := fresh.Write(d2)
+		verifAssert(n1 == m1 && w1 == v1, "second Write after Reset differs from a new parser [C13]")
+		if w1 == nil && v1 == nil {
+			zzLockstep(used, fresh, n2+1, "Reset, second fill")
+		}
+	}
 	verifReach("end")
 }
 
@@ -149,7 +179,7 @@ func zzH_resetBUP()  { zzResetIS(zzBUP) }
 func zzSapReset(kind int) {
 	N := verifParam("N")
 	k := verifParam("k")
-	pre := verifParam("pre") // 0: Write(a) Parse*; 1: ... Shrink; 2: Write(a) Parse(one block) only
+	pre := verifParam("pre") // 0: Write(a) Parse*; 1: ... Shrink; 2: Write(a) Parse(one block) only; 3: Write(a1) Parse* Write(a2) Parse*
 	mode := verifParam("mode")
 	stream := zzStream(N)
 	zzOrderType(stream)
@@ -157,13 +187,27 @@ func zzSapReset(kind int) {
 	used, upb := zzNewSap(c)
 	fresh, _ := zzNewSap(c)
 	a, b := stream[:k], stream[k:]
-	n, err := used.Write(a)
-	verifAssume(err == nil && n == len(a))
-	for step := 0; step <= len(a); step++ {
-		var blk Block
-		if _, err := used.Parse(&blk, verifChoose(verifName("pflags", step), 2)); err != nil || pre == 2 {
-			break
+	fill := func(x []byte, tag string) {
+		n, err := used.Write(x)
+		verifAssume(err == nil && n == len(x))
+		for step := 0; step <= len(x); step++ {
+			var blk Block
+			pf := 0
+			if verifParamOr("preFlags", 0) == 1 {
+				pf = verifChoose(verifName(tag, step), 2)
+			}
+			if _, err := used.Parse(&blk, pf); err != nil || pre == 2 {
+				break
+			}
 		}
+	}
+	if pre == 3 {
+		// two fills without Shrink: the suffix structures are rebuilt with a parse position > 0
+		h := len(a) - 1
+		fill(a[:h], "pflagsA")
+		fill(a[h:], "pflagsB")
+	} else {
+		fill(a, "pflags")
 	}
 	if pre == 1 {
 		used.Shrink()
